@@ -204,4 +204,10 @@ example : (runL id exPol (.opens exSess) none [⟨50, exReq, exRevoked⟩, ⟨90
     (fun x => (proxy id exPol x.2.2.now x.2.2.req x.1 x.2.2.ans).outcome)
     = [.forward (some ⟨"a", [97, 64, 120], [], none⟩), .forward (some ⟨"a", [97, 64, 120], [], none⟩), .errorPage 403, .startOAuth] := by decide
 
+/-- Tie (T1), second wave: helpers, stores and second callers on this property's path (store_ClearSession) — call/branch/store skeletons
+regenerated from the source on every run against the expectations frozen here. -/
+theorem C19_wiring2 :
+    Sso.Generated.skel_store_ClearSession =
+      ["call:Now", "call:makeSessionCookie", "call:SetCookie"] := by decide
+
 end Sso.Proxy
